@@ -1,11 +1,16 @@
 //! High-performance metrics storage.
 
 mod storage;
+#[cfg(not(metrics_verif))]
 use std::{
     hash::BuildHasherDefault,
     iter::repeat,
     sync::{PoisonError, RwLock},
 };
+#[cfg(metrics_verif)]
+use metrics::verif::sync::RwLock;
+#[cfg(metrics_verif)]
+use std::{hash::BuildHasherDefault, iter::repeat, sync::PoisonError};
 
 use hashbrown::{hash_map::RawEntryMut, HashMap};
 use metrics::{Key, KeyHasher};
